@@ -148,6 +148,10 @@ class ModelCache:
         if it.num is None:
             return ('exc', 'TypeError')
         value = it.num + delta
+        if type(value) is int and not -2 ** 63 <= value < 2 ** 63:
+            # the sum of an existing row is written straight into the INTEGER column: beyond 64 bits the binding fails
+            # (documented limit of incr) and the transaction rolls back
+            return ('exc', 'OverflowError')
         it.num = value
         it.vfp = fp(value)
         it.store = now
